@@ -326,6 +326,8 @@ class Interp:
 
     def ptypes_for(self, callee: Callee, which: str) -> dict:
         """parameter types of an exit function for a pending exception class"""
+        if which == 'genexit':
+            which = 'exc:' + GENEXIT
         if not which or not which.startswith('exc:'):
             return {}
         cls = which[4:]
@@ -1916,13 +1918,13 @@ class Interp:
         for param, arg in zip(params, expr.args):
             if isinstance(arg, ast.Starred):
                 break
-            ptypes[param.arg] = self.etype(arg, fr)
+            ptypes[param.arg] = self._arg_type(arg, st, fr)
             if isinstance(arg, ast.Name):
                 renames.append((arg.id, param.arg))
         by_name = {p.arg: p for p in params + callee.fn.node.args.kwonlyargs}
         for kw in expr.keywords:
             if kw.arg in by_name:
-                ptypes[kw.arg] = self.etype(kw.value, fr)
+                ptypes[kw.arg] = self._arg_type(kw.value, st, fr)
                 if isinstance(kw.value, ast.Name):
                     renames.append((kw.value.id, kw.arg))
         results = []
@@ -1967,6 +1969,27 @@ class Interp:
         finally:
             self._busy.discard(busy)
         return results
+
+    def _arg_type(self, arg, st: St, fr: DynFrame):
+        """static type of an argument; a handler-bound name has the path's exception class"""
+        bound = None
+        if st.exc_stack and isinstance(st.exc_stack[-1].tag, tuple) and \
+                st.exc_stack[-1].tag[0] == 'bound':
+            bound = st.exc_stack[-1]
+        if bound is not None:
+            name = bound.tag[1]
+            cls = bound.cls
+            if isinstance(arg, ast.Name) and arg.id == name:
+                if cls.startswith('ext:'):
+                    return frozenset({('ext', cls[4:])})
+                return frozenset({('inst', cls)})
+            if isinstance(arg, ast.Call) and isinstance(arg.func, ast.Name) and \
+                    arg.func.id == 'type' and len(arg.args) == 1 and \
+                    isinstance(arg.args[0], ast.Name) and arg.args[0].id == name:
+                if cls.startswith('ext:'):
+                    return frozenset({('extfn', cls[4:])})
+                return frozenset({('cls', cls)})
+        return self.etype(arg, fr)
 
     def _identity_disjoint(self, expr, fr: DynFrame) -> bool:
         """``a is b`` where the static types of a and b cannot be the same object"""
